@@ -73,11 +73,11 @@ def check_grid(run, pkg, ndim):
     frame_loop, axis_loops = loops[0], loops[1:]
     # frame loop: enumerate(snapshots.snapshots)
     fit = frame_loop.iter
-    ok_frames = fit == ("call", "builtins.enumerate", (("attr", ("sym", "snapshots"), "snapshots"),), ())
+    ok_frames = eqv(fit, ("call", "builtins.enumerate", (("attr", ("sym", "snapshots"), "snapshots"),), ()))
     n_term = ("elem", frame_loop.target, 0)
     snap = ("elem", frame_loop.target, 1)
     run.ob("R-LOOPDOM", fq, f"{ndim}D:frames", ok_frames, "grid is built for every frame", show(fit)[:80],
-           witness=None if ok_frames else "frames skipped", loc=fi.loc(frame_loop.node))
+           witness=None if ok_frames else "frames skipped", loc=fi.loc(frame_loop.node), sound=True)
     run.ob("R-IDX", fq, f"{ndim}D:frame-slot", frame_idx == n_term, "grid points of frame n are stored in row n",
            f"first index {show(frame_idx)}", witness=None if frame_idx == n_term else "frame rows mixed", loc=loc_of(it, ev))
     # each coordinate: linspace(bounds[c,0], bounds[c,1], ngrids[c])[loopvar_c] with loopvar_c over range(ngrids[c])
@@ -163,9 +163,9 @@ def check_grid(run, pkg, ndim):
     gp = ev.data["target"][1]
     if gp[0] == "call" and gp[1] == "numpy.zeros" and gp[2] and gp[2][0][0] == "tuple" and len(gp[2][0][1]) == 3:
         shp = gp[2][0][1]
-        okc = shp[1] == ("call", "numpy.prod", (ng,), ()) and shp[0] == ("attr", ("sym", "snapshots"), "nsnapshots")
+        okc = tri_lazy(lambda: eqv(shp[1], ("call", "numpy.prod", (ng,), ())), lambda: eqv(shp[0], ("attr", ("sym", "snapshots"), "nsnapshots")))
         run.ob("R-LINEAR", fq, f"{ndim}D:capacity", okc, "grid array has nsnapshots x prod(ngrids) rows", show(gp)[:100],
-               witness=None if okc else "row count differs from the number of grid points", loc=loc_of(it, ev))
+               witness=None if okc else "row count differs from the number of grid points", loc=loc_of(it, ev), sound=True)
 
 
 def check_grid_meshgrid(run, it, fq, ndim):
@@ -191,9 +191,9 @@ def check_grid_meshgrid(run, it, fq, ndim):
     if form is None:
         run.ob("R-LINEAR", fq, f"{ndim}D:flat-index", None, "grid layout recognised", show(val)[:120], loc=loc)
         return True
-    okij = idx == C("ij")
+    okij = eqv(idx, C("ij"))
     run.ob("R-LINEAR", fq, f"{ndim}D:flat-index", okij, f"{ndim}D grid points are laid out row-major with x slowest (meshgrid indexing='ij' flattened in C order)", f"{form}, indexing={show(idx) if idx else 'xy (default)'}",
-           witness=None if okij else "ngrids=(2, 3): with the default 'xy' indexing the first two axes are swapped, point k is not (i, j) with k = i*3 + j", loc=loc)
+           witness=None if okij else "ngrids=(2, 3): with the default 'xy' indexing the first two axes are swapped, point k is not (i, j) with k = i*3 + j", loc=loc, sound=True)
     # axes
     ax = mg[2][0] if mg[2] else None
     lst = ax[1] if ax is not None and ax[0] == "star" else None
@@ -202,8 +202,7 @@ def check_grid_meshgrid(run, it, fq, ndim):
     if lst is not None and lst[0] == "comp" and len(lst[3]) == 1 and not lst[3][0][2]:
         d, src, _ = lst[3][0]
         elt = lst[2]
-        okdom = src in (("call", "builtins.range", (("call", "builtins.len", (ng,), ()),), ()),
-                        ("call", "builtins.range", (("sub", ("attr", ("attr", ("sub", ("attr", ("sym", "snapshots"), "snapshots"), C(0)), "positions"), "shape"), C(1)),), ()))
+        okdom = eqv(src, ("call", "builtins.range", (("call", "builtins.len", (ng,), ()),), ()), ("call", "builtins.range", (("sub", ("attr", ("attr", ("sub", ("attr", ("sym", "snapshots"), "snapshots"), C(0)), "positions"), "shape"), C(1)),), ()))
         if elt[0] == "call" and elt[1] == "numpy.linspace" and len(elt[2]) >= 3:
             lo, hi, num = elt[2][:3]
             if lo[0] == "sub" and hi[0] == "sub" and lo[1] == hi[1] and lo[2] == ("tuple", (d, C(0))) and hi[2] == ("tuple", (d, C(1))) and num == ("sub", ng, d):
@@ -213,11 +212,11 @@ def check_grid_meshgrid(run, it, fq, ndim):
         okax = len(mg[2]) == ndim
         for c, a in enumerate(mg[2]):
             lo, hi, num = a[2][:3]
-            okax = okax and lo[0] == "sub" and hi[0] == "sub" and lo[1] == hi[1] and lo[2] == ("tuple", (C(c), C(0))) and hi[2] == ("tuple", (C(c), C(1))) and num == ("sub", ng, C(c))
+            okax = tri_lazy(lambda: (True if (okax) else None), lambda: (True if (lo[0] == "sub") else None), lambda: (True if (hi[0] == "sub") else None), lambda: (True if (lo[1] == hi[1]) else None), lambda: eqv(lo[2], ("tuple", (C(c), C(0)))), lambda: eqv(hi[2], ("tuple", (C(c), C(1)))), lambda: eqv(num, ("sub", ng, C(c))))
             bounds_of = lo[1] if lo[0] == "sub" else None
     for c in range(ndim):
         run.ob("R-ALG", fq, f"{ndim}D:axis{c}", okax, f"coordinate {c} of a grid point is linspace(bounds[{c},0], bounds[{c},1], ngrids[{c}])", show(ax)[:120] if ax else "?",
-               witness=None if okax else "an axis uses bounds/count of another axis", loc=loc)
+               witness=None if okax else "an axis uses bounds/count of another axis", loc=loc, sound=True)
     # which frame's bounds, stored for which frame
     tgt = ev.data["target"][2]
     in_loop = [it.loops[l] for l in ev.loops]
@@ -225,9 +224,9 @@ def check_grid_meshgrid(run, it, fq, ndim):
     detail = f"target [{show(tgt)[:40]}], bounds {show(bounds_of)[:60] if bounds_of else '?'}"
     if in_loop and in_loop[0].iter == ("call", "builtins.enumerate", (("attr", ("sym", "snapshots"), "snapshots"),), ()):
         n_term, snap = ("elem", in_loop[0].target, 0), ("elem", in_loop[0].target, 1)
-        ok_slot = tgt == n_term and bounds_of == ("attr", snap, "boxbounds")
+        ok_slot = tri_lazy(lambda: (True if (tgt == n_term) else None), lambda: eqv(bounds_of, ("attr", snap, "boxbounds")))
     run.ob("R-IDX", fq, f"{ndim}D:frame-slot", ok_slot, "the grid of frame n spans the box bounds of frame n and is stored in row n", detail,
-           witness=None if ok_slot else "box bounds change between frames (constant-pressure run): frame 1 is evaluated on frame 0's grid", loc=loc)
+           witness=None if ok_slot else "box bounds change between frames (constant-pressure run): frame 1 is evaluated on frame 0's grid", loc=loc, sound=True)
     return True
 
 
@@ -274,9 +273,9 @@ def check_property_sums(run, pkg):
         for e in stores(it):
             if e.data["value"][0] in ("list", "tuple") and e.data["target"][1][0] == "call" and e.data["target"][1][1] == "numpy.zeros" and e.data["target"][1] != tgt[1]:
                 gp_term = e.data["target"][1]
-        ok_dom = gp_term is not None and gl.iter == ("call", "builtins.range", (("sub", ("attr", gp_term, "shape"), C(1)),), ())
+        ok_dom = tri_lazy(lambda: (True if (gp_term is not None) else None), lambda: eqv(gl.iter, ("call", "builtins.range", (("sub", ("attr", gp_term, "shape"), C(1)),), ())))
         run.ob("R-LOOPDOM", fq, f"{name}:gridloop", ok_dom, "every grid point is evaluated", show(gl.iter)[:80],
-               witness=None if ok_dom else "grid points skipped", loc=fi.loc(gl.node))
+               witness=None if ok_dom else "grid points skipped", loc=fi.loc(gl.node), sound=True)
         val = ev.data["value"]
         axis = kw(val, "axis", 1)
         prod = val[2][0]
@@ -311,8 +310,8 @@ def check_property_sums(run, pkg):
             continue
         dist_sel = gcall[2][0] if gcall[2] else None
         sig = gcall[2][1] if len(gcall[2]) > 1 else kw(gcall, "sigma")
-        run.ob("R-ALG", fq, f"{name}:sigma", sig == ("sym", "sigma"), "the requested sigma is passed to the Gaussian", show(sig) if sig else "default",
-               witness=None if sig == ("sym", "sigma") else "sigma ignored", loc=loc_of(it, ev))
+        run.ob("R-ALG", fq, f"{name}:sigma", eqv(sig, ("sym", "sigma")), "the requested sigma is passed to the Gaussian", show(sig) if sig else "default",
+               witness=None if sig == ("sym", "sigma") else "sigma ignored", loc=loc_of(it, ev), sound=True)
         # distance[selection], selection = distance < cut
         ok_sel = False
         detail = show(dist_sel)[:120] if dist_sel else "?"
@@ -339,9 +338,9 @@ def check_property_sums(run, pkg):
                    show(inner)[:120] if inner else show(dist)[:100], witness=None if ok_d else "distance not between grid point i and the frame's particles",
                    loc=loc_of(it, ev))
             if pa:
-                ok_h = pa[1] == ("attr", snap, "hmatrix")
+                ok_h = eqv(pa[1], ("attr", snap, "hmatrix"))
                 run.ob("R-PBC", fq, f"{name}:cell", ok_h, "minimum image uses the frame's cell", show(pa[1])[:60],
-                       witness=None if ok_h else "cell of another frame", loc=loc_of(it, ev))
+                       witness=None if ok_h else "cell of another frame", loc=loc_of(it, ev), sound=True)
                 want_ppp = ("sub", ("sym", "ppp"), ("slice", NONE, ("call", "builtins.len", (("sym", "ngrids"),), ()), NONE))
                 ok_m = pa[2] in (want_ppp, ("sym", "ppp"))
                 run.ob("R-PBC", fq, f"{name}:mask", ok_m, "periodicity mask (cut to the dimension) is forwarded", show(pa[2])[:60] if pa[2] else "default",
@@ -375,22 +374,20 @@ def check_spatial_average(run, pkg):
     Ln, Li, Lj = loops
     n, i, j = Ln.target, Li.target, Lj.target
     cn = rd.data["result"]
-    ok_dn = Ln.iter == ("call", "builtins.range", (("sub", ("attr", ip, "shape"), C(0)),), ())
-    ok_di = Li.iter == ("call", "builtins.range", (("sub", ("attr", ip, "shape"), C(1)),), ())
+    ok_dn = eqv(Ln.iter, ("call", "builtins.range", (("sub", ("attr", ip, "shape"), C(0)),), ()))
+    ok_di = eqv(Li.iter, ("call", "builtins.range", (("sub", ("attr", ip, "shape"), C(1)),), ()))
     cnt = ("sub", cn, ("tuple", (i, C(0))))
-    ok_dj = Lj.iter in (("sub", cn, ("tuple", (i, ("slice", C(1), ("bin", "+", C(1), cnt), NONE)))),
-                        ("sub", cn, ("tuple", (i, ("slice", C(1), ("bin", "+", cnt, C(1)), NONE)))))
-    run.ob("R-LOOPDOM", fq, "frames", ok_dn, "every frame is averaged", show(Ln.iter)[:70], witness=None if ok_dn else "frames skipped", loc=fi.loc(Ln.node))
-    run.ob("R-LOOPDOM", fq, "particles", ok_di, "every particle is averaged", show(Li.iter)[:70], witness=None if ok_di else "particles skipped", loc=fi.loc(Li.node))
+    ok_dj = eqv(Lj.iter, ("sub", cn, ("tuple", (i, ("slice", C(1), ("bin", "+", C(1), cnt), NONE)))), ("sub", cn, ("tuple", (i, ("slice", C(1), ("bin", "+", cnt, C(1)), NONE)))))
+    run.ob("R-LOOPDOM", fq, "frames", ok_dn, "every frame is averaged", show(Ln.iter)[:70], witness=None if ok_dn else "frames skipped", loc=fi.loc(Ln.node), sound=True)
+    run.ob("R-LOOPDOM", fq, "particles", ok_di, "every particle is averaged", show(Li.iter)[:70], witness=None if ok_di else "particles skipped", loc=fi.loc(Li.node), sound=True)
     run.ob("R-IDX", fq, "neighbours", ok_dj, "neighbours of particle i are columns 1..cn_i of its row (column 0 is the count)", show(Lj.iter)[:90],
-           witness=None if ok_dj else "neighbour slice is not [i, 1:1+cn_i]", loc=fi.loc(Lj.node))
-    ok_t = add.data["target"][2] == ("tuple", (n, i)) and add.data["value"] == ("sub", ip, ("tuple", (n, j)))
+           witness=None if ok_dj else "neighbour slice is not [i, 1:1+cn_i]", loc=fi.loc(Lj.node), sound=True)
+    ok_t = tri_lazy(lambda: eqv(add.data["target"][2], ("tuple", (n, i))), lambda: eqv(add.data["value"], ("sub", ip, ("tuple", (n, j)))))
     run.ob("R-ALG", fq, "sum", ok_t, "adds the *input* value of neighbour j of the same frame to particle i", f"{key_of(add)}",
-           witness=None if ok_t else "neighbour term read from another frame / from the partially averaged array", loc=loc_of(it, add))
-    ok_div = div.data["target"][2] == ("tuple", (n, i)) and div.data["value"] in (("bin", "+", C(1), cnt), ("bin", "+", cnt, C(1))) \
-        and set(div.loops) == {Ln.id, Li.id} and div.seq > add.seq
+           witness=None if ok_t else "neighbour term read from another frame / from the partially averaged array", loc=loc_of(it, add), sound=True)
+    ok_div = tri_lazy(lambda: eqv(div.data["target"][2], ("tuple", (n, i))), lambda: eqv(div.data["value"], ("bin", "+", C(1), cnt), ("bin", "+", cnt, C(1))), lambda: (True if (set(div.loops) == {Ln.id, Li.id}) else None), lambda: (True if (div.seq > add.seq) else None))
     run.ob("R-ALG", fq, "mean", ok_div, "divides by 1 + cn_i once per particle, after the neighbour sum", key_of(div),
-           witness=None if ok_div else "normalisation is not 1 + coordination number", loc=loc_of(it, div))
+           witness=None if ok_div else "normalisation is not 1 + coordination number", loc=loc_of(it, div), sound=True)
     # handle protocol
     rc = rd.data["call"]
     handle = rc[2][0] if rc[2] else None
@@ -400,9 +397,9 @@ def check_spatial_average(run, pkg):
            f"read_neighbors in loops {rd.loops}, handle {show(handle)[:50] if handle else None}",
            witness=None if ok_h else "multi-frame files are re-read from the start / read per particle", loc=loc_of(it, rd))
     args = rc[2]
-    ok_a = len(args) >= 2 and args[1] == ("sub", ("attr", ip, "shape"), C(1))
+    ok_a = tri_lazy(lambda: (True if (len(args) >= 2) else None), lambda: eqv(args[1], ("sub", ("attr", ip, "shape"), C(1))))
     run.ob("R-PROTO", fq, "nparticle", ok_a, "reader is told the particle number of the input", show(args[1])[:60] if len(args) > 1 else "?",
-           witness=None if ok_a else "wrong row count consumed per frame", loc=loc_of(it, rd))
+           witness=None if ok_a else "wrong row count consumed per frame", loc=loc_of(it, rd), sound=True)
 
 
 def vectorised_spatial_average(run, it, fq, cg, rd):
@@ -504,9 +501,9 @@ def check_time_average(run, pkg):
         sl = val[2][0][2]
         if sl[0] == "slice" and sl[1] == n and sl[2][0] == "bin" and sl[2][1] == "+" and n in (sl[2][2], sl[2][3]) and sl[3] == NONE:
             w = sl[2][3] if sl[2][2] == n else sl[2][2]
-            ok_slice = kw(val, "axis", 1) == C(0)
+            ok_slice = eqv(kw(val, "axis", 1), C(0))
     run.ob("R-ALG", fq, "window", ok_slice, "row n is the mean over frames n .. n+w-1 (axis 0)", show(val)[:100],
-           witness=None if ok_slice else "window slice / mean axis differ", loc=loc_of(it, ev))
+           witness=None if ok_slice else "window slice / mean axis differ", loc=loc_of(it, ev), sound=True)
     if w is None:
         return
     # window length definition
@@ -533,11 +530,11 @@ def check_time_average(run, pkg):
     ok_rows = False
     shp = res[2][0] if res[0] == "call" and res[1] == "numpy.zeros" and res[2] else None
     if shp is not None and shp[0] == "tuple":
-        ok_rows = shp[1][0] == ("bin", "-", ("attr", sn, "nsnapshots"), w)
+        ok_rows = eqv(shp[1][0], ("bin", "-", ("attr", sn, "nsnapshots"), w))
     run.ob("R-ALG", fq, "rows", ok_rows, "number of windows is nsnapshots - w", show(shp)[:80] if shp else "?",
-           witness=None if ok_rows else "window count wrong", loc=fi.loc())
-    ok_dom = L.iter == ("call", "builtins.range", (("sub", ("attr", res, "shape"), C(0)),), ())
-    run.ob("R-LOOPDOM", fq, "windows", ok_dom, "every window start is visited", show(L.iter)[:80], witness=None if ok_dom else "windows skipped", loc=fi.loc(L.node))
+           witness=None if ok_rows else "window count wrong", loc=fi.loc(), sound=True)
+    ok_dom = eqv(L.iter, ("call", "builtins.range", (("sub", ("attr", res, "shape"), C(0)),), ()))
+    run.ob("R-LOOPDOM", fq, "windows", ok_dom, "every window start is visited", show(L.iter)[:80], witness=None if ok_dom else "windows skipped", loc=fi.loc(L.node), sound=True)
     if is_trunc:
         # floor of a float quotient without tolerance: period = k * interval can come out as k - 1
         run.ob("R-TRUNC", fq, "window-length", False, "window length is floor(period/interval), exact multiples included",
